@@ -6,23 +6,27 @@ with no gaps or overlaps. Concatenating their text reproduces the input exactly,
 tokens are matched or reported as errors."
 
 Model: PCV.Model.TokenStream (stream = cumulative ends, push/flush accounting, bracket stack
-machine) and PCV.Model.XLexer (the lexer main loop, byte for byte).
+machine) and PCV.Model.XLexer (the lexer main loop, byte for byte), mirroring /repo after the fixes
+d839c04c (lone backslash at EOF no longer panics) and cb845bb5 (`flushUnrecognized` after the loop).
 
 * `stream_tiles` / `stream_contiguous`: ANY stream built by pushes is contiguous, without gaps or
   overlaps, and its texts concatenate to `text[0 : lastEnd]` (by construction of the ends).
-* `accounting_covers`: for EVERY input (and every Unicode class table) on which the lexer runs to
-  completion, `lastEnd = len(text)` minus the run of unrecognised bytes still pending in
-  `badBytes` when the main loop ends — nothing flushes it unless a bracket is left unclosed.
-* The full statement `C29_tiles_full` is therefore FALSE of the code as it is; `C29_tiles_refuted`
-  gives kernel-checked witnesses (trailing unrecognised byte, a string ending in `\` at EOF,
-  a file that is not UTF-8, the UTF-8 file `a<NUL>`); `tiles_iff` characterises exactly when the
-  tokens of a completed run tile; `C29_tiles_partial_input` proves tiling from hypotheses on the
-  INPUT alone: valid UTF-8, no UTF-16 look, no backslash, final newline.
+* `accounting_covers`: for EVERY input (and every Unicode class table) that the prelude lets
+  through, the run completes and the stream ends exactly at `len(text)`.
+* `C29_tiles`: for every such input the tokens are contiguous, cover the whole input and concatenate
+  to it; `C29_tiles_input` states the hypothesis on the input alone (empty, or valid UTF-8 that does
+  not trip the UTF-16 heuristics); `tiles_iff`: the tokens tile the input IFF the prelude passes.
+* The statement for ALL byte strings, `C29_tiles_full`, is still false: `C29_tiles_refuted` — the
+  prelude refuses files that are not UTF-8 (`witness_not_utf8`) or look like UTF-16
+  (`witness_utf16_heuristic`: the UTF-8 file `a<NUL>`) with an empty stream. That is the only
+  remaining failure (`tiles_iff`).
 * `brackets_matched_or_reported` / `lex_brackets_matched_or_reported`: after `fuseBraces`, every
   bracket token is fused with a partner or covered by an "unmatched delimiter" error
   (`fused_pairs_match`: loop pairs have matching kinds).
+* documentation of fixed defects: `witness_dropped_tailPrefix` (before cb845bb5 a trailing
+  unrecognised byte got no token and no diagnostic), `witness_escape` (`"\` is now one String token).
 -/
-import PCV.Lemmas.XTail
+import PCV.Lemmas.XFuseOk
 namespace PCV.Props.C29
 open PCV.TokenStream PCV.XLexer
 
@@ -57,154 +61,134 @@ theorem push_keeps_mono (n : Nat) (s : LS) (len kind kw : Nat) (h : Mono s.toks)
 
 /-! ## the accounting of the real lexer loop -/
 
-/-- brackets still open when `fuseBraces` has matched everything it can -/
-def unclosed (E : Env) : List BItem := (fuseGo (lex E).final.braces.reverse [] {} false).2
-
-/-- **accounting_covers.** Whenever the lexer runs to completion, the stream is monotone and ends at
-    `len(text)` minus the unrecognised bytes that were still pending (`badBytes`) when the main loop
-    ended — unless an unclosed bracket made `fuseBraces` push (and thereby flush). -/
-theorem accounting_covers (E : Env) (hcls : ClsOK E) (hd : (lex E).status = .done) :
-    MonoFrom 0 (lex E).toks ∧
-    lastIn 0 (lex E).toks = (if unclosed E = [] then E.n - (lex E).final.bad.toNat else E.n) := by
-  rcases lex_cases E hcls with ⟨_, ha, _⟩ | ⟨_, _, _, _, hi⟩ | ⟨s0, s1, hp, hm, hpost, hfin, hends, _⟩
-  · rw [ha] at hd; cases hd
-  · rw [hi] at hd; cases hd
-  · have hfb := fuseBraces_post E.n s1 hpost
-    have hmono : MonoFrom 0 (lex E).toks := by
-      rw [monoFrom_congr 0 _ _ hends]
+/-- **accounting_covers.** Whenever the prelude lets the file through, the run completes, the
+    stream is monotone and ends exactly at `len(text)`: every byte the cursor consumed has been
+    pushed, the pending unrecognised bytes included (`flushUnrecognized` after the loop). -/
+theorem accounting_covers (E : Env) (hcls : ClsOK E) (hp : (prelude E {}).2 = true) :
+    (lex E).status = .done ∧ MonoFrom 0 (lex E).toks ∧ lastIn 0 (lex E).toks = E.n := by
+  rcases lex_cases E hcls with ⟨hf, _, _⟩ | ⟨s0, s1, hp', hm, hpost, hlast, hfin, hends, _⟩
+  · rw [hf] at hp; cases hp
+  · have hd := lex_done_of_prelude E hcls s0 hp'
+    have hfb := fuseBraces_post E.n _ hpost
+    refine ⟨hd, ?_, ?_⟩
+    · rw [monoFrom_congr 0 _ _ hends]
       exact mono_reverse _ hfb.1.mono
-    refine ⟨hmono, ?_⟩
-    rw [lastIn_congr 0 _ _ hends, lastIn_reverse]
-    unfold unclosed
-    rw [hfin]
-    split
-    · next he =>
-      rw [hfb.2.2 he]
-      have := hpost.eq
-      omega
-    · next hne => exact hfb.2.1 hne
+    · rw [lastIn_congr 0 _ _ hends, lastIn_reverse]
+      by_cases he : (fuseGo (flush E.n s1).braces.reverse [] {} false).2 = []
+      · rw [hfb.2.2 he]; exact hlast
+      · exact hfb.2.1 he
 
-/-- when the lexer completes, the token texts concatenate to the prefix of the file that the
-    stream covers -/
-theorem lex_concat (E : Env) (hcls : ClsOK E) (hd : (lex E).status = .done) :
-    concatTexts E.text (lex E).toks = E.text.take (lastIn 0 (lex E).toks) := by
-  have := (accounting_covers E hcls hd).1
+/-- the state handed to `fuseBraces` has no unrecognised bytes pending -/
+theorem nothing_pending (E : Env) (hcls : ClsOK E) (hp : (prelude E {}).2 = true) :
+    (lex E).final.bad ≤ 0 := by
+  rcases lex_cases E hcls with ⟨hf, _, _⟩ | ⟨s0, s1, hp', hm, hpost, hlast, hfin, _⟩
+  · rw [hf] at hp; cases hp
+  · rw [hfin]
+    have := hpost.eq
+    omega
+
+/-- **C29, tiling clause.** For every input that passes the prelude — and every Unicode class
+    table with XID_Start ⊆ XID_Continue — the tokens are contiguous (no gaps, no overlaps), cover the
+    whole input, and their texts concatenate to the input exactly. -/
+theorem C29_tiles (E : Env) (hcls : ClsOK E) (hp : (prelude E {}).2 = true) :
+    Contig 0 (spansFrom 0 (lex E).toks) ∧ lastIn 0 (lex E).toks = E.n ∧
+    concatTexts E.text (lex E).toks = E.text := by
+  obtain ⟨_, hmono, hlast⟩ := accounting_covers E hcls hp
+  refine ⟨stream_contiguous 0 _ hmono, hlast, ?_⟩
   unfold concatTexts
-  rw [tiles_from E.text 0 _ this]
-  simp
+  rw [tiles_from E.text 0 _ hmono, hlast]
+  simp [Env.n]
 
-/-- **Exact characterisation.** On a completed run the tokens tile the input iff no unrecognised
-    bytes were pending at the end of the main loop, or some bracket was left unclosed. -/
-theorem tiles_iff (E : Env) (hcls : ClsOK E) (hd : (lex E).status = .done) :
-    concatTexts E.text (lex E).toks = E.text ↔ ((lex E).final.bad ≤ 0 ∨ unclosed E ≠ []) := by
-  rw [lex_concat E hcls hd, (accounting_covers E hcls hd).2]
-  have hlen : ∀ k, E.text.take k = E.text ↔ E.n ≤ k := by
-    intro k
-    unfold Env.n
-    constructor
-    · intro h
-      have := congrArg List.length h
-      simp only [List.length_take] at this
-      omega
-    · intro h; exact List.take_of_length_le h
-  rw [hlen]
+/-- the same with the hypothesis on the input alone: the empty file, or valid UTF-8 that does not
+    trip the UTF-16 heuristics (BOM `FE FF`/`FF FE`, NUL among the first two bytes) -/
+theorem C29_tiles_input (E : Env) (hcls : ClsOK E)
+    (hin : E.text = [] ∨ (looksUtf16 E.text = false ∧ V E.text)) :
+    Contig 0 (spansFrom 0 (lex E).toks) ∧ lastIn 0 (lex E).toks = E.n ∧
+    concatTexts E.text (lex E).toks = E.text :=
+  C29_tiles E hcls ((prelude_passes_iff E).mpr hin)
+
+/-- when the prelude refuses a file it has pushed nothing, and the file is not empty -/
+theorem prelude_refusal (E : Env) (h : (prelude E {}).2 = false) :
+    (prelude E {}).1.toks = [] ∧ E.text ≠ [] := by
+  unfold prelude at h ⊢
+  simp only at h ⊢
   split
-  · next he =>
-    constructor
-    · intro h
-      left
-      rcases lex_cases E hcls with ⟨_, ha, _⟩ | ⟨_, _, _, _, hi⟩ | ⟨s0, s1, hp, hm, hpost, hfin, _, _⟩
-      · rw [ha] at hd; cases hd
-      · rw [hi] at hd; cases hd
-      · rw [hfin]
-        have := hpost.eq
-        rw [hfin] at h
-        have hle : lastEnd s1.toks ≤ E.n := by omega
-        omega
-    · rintro (h | h)
-      · have : (lex E).final.bad.toNat = 0 := by omega
-        omega
-      · exact absurd he h
-  · next hne => simp [hne]
+  · next ht => rw [if_pos ht] at h; cases h
+  · next ht =>
+    rw [if_neg ht] at h
+    refine ⟨?_, ht⟩
+    split
+    · rfl
+    · next h16 =>
+      rw [if_neg h16] at h
+      split
+      · next x hs =>
+        rw [hs] at h
+        simp only at h
+        split at h <;> cases h
+      · split <;> rfl
 
-/-! ## the property at full strength, its refutation, and what does hold -/
+/-- **Exact characterisation.** The tokens tile the input iff the prelude lets the file through. -/
+theorem tiles_iff (E : Env) (hcls : ClsOK E) :
+    concatTexts E.text (lex E).toks = E.text ↔ (prelude E {}).2 = true := by
+  constructor
+  · intro h
+    cases hp : (prelude E {}).2 with
+    | true => rfl
+    | false =>
+      exfalso
+      rcases lex_cases E hcls with ⟨_, _, htoks⟩ | ⟨s0, _, hp', _⟩
+      · obtain ⟨h1, h2⟩ := prelude_refusal E hp
+        rw [htoks, h1] at h
+        simp [concatTexts, spansFrom] at h
+        exact h2 h
+      · rw [hp'] at hp; cases hp
+  · intro hp; exact (C29_tiles E hcls hp).2.2
 
-/-- C29, tiling clause, at full strength: for every byte string (and every class table) the token
-    texts concatenate to the input. -/
+/-! ## the property for all byte strings, its refutation (prelude refusals only) -/
+
+/-- C29, tiling clause, for every byte string (and every class table). -/
 def C29_tiles_full : Prop := ∀ E : Env, concatTexts E.text (lex E).toks = E.text
 
-
-/-- witness 1: a file consisting of one unrecognised byte (a backquote) gets NO token at all -/
-theorem witness_dropped_tail :
-    (lex (envA [96])).status = .done ∧ (lex (envA [96])).toks = [] ∧ (lex (envA [96])).diags = [] := by
-  decide +kernel
-
-/-- witness 2: `"\` — a string whose content ends in a backslash at the end of the file panics
-    (caught by CatchICE); the token is never pushed -/
-theorem witness_escape_ice :
-    (lex (envA [34, 92])).status = .icePanic ∧ (lex (envA [34, 92])).toks = [] := by
-  decide +kernel
-
-/-- witness 3: a file that is not UTF-8 is refused by the prelude with an empty stream -/
+/-- a file that is not UTF-8 is refused by the prelude with an empty stream -/
 theorem witness_not_utf8 :
     (lex (envA [0xff])).status = .abort ∧ (lex (envA [0xff])).toks = [] := by
   decide +kernel
 
-/-- witness 4: valid UTF-8 (and ASCII) `a<NUL>` is refused by the UTF-16 heuristic -/
+/-- valid UTF-8 (and ASCII) `a<NUL>` is refused by the UTF-16 heuristic -/
 theorem witness_utf16_heuristic :
     (lex (envA [97, 0])).status = .abort ∧ (lex (envA [97, 0])).toks = [] := by
   decide +kernel
 
 theorem C29_tiles_refuted : ¬ C29_tiles_full := by
   intro h
-  have := h (envA [96])
-  rw [witness_dropped_tail.2.1] at this
+  have := h (envA [0xff])
+  rw [witness_not_utf8.2] at this
   simp [concatTexts, spansFrom, envA] at this
 
-/-- **Partial theorem.** For every input on which the lexer completes with no unrecognised bytes
-    pending (`badBytes ≤ 0` after the main loop), the tokens are contiguous, cover the whole input and
-    their texts concatenate to it. -/
-theorem C29_tiles_partial (E : Env) (hcls : ClsOK E) (hd : (lex E).status = .done)
-    (hbad : (lex E).final.bad ≤ 0) :
-    Contig 0 (spansFrom 0 (lex E).toks) ∧ lastIn 0 (lex E).toks = E.n ∧
-    concatTexts E.text (lex E).toks = E.text := by
-  have hacc := accounting_covers E hcls hd
-  refine ⟨stream_contiguous 0 _ hacc.1, ?_, (tiles_iff E hcls hd).mpr (Or.inl hbad)⟩
-  rw [hacc.2]
-  split
-  · have : (lex E).final.bad.toNat = 0 := by omega
-    omega
-  · rfl
-
-/-- **Partial theorem, stated on the input alone.** Every valid UTF-8 file that contains no
-    backslash, does not trip the UTF-16 heuristics and ends with a newline is tiled by its tokens:
-    contiguous, covering, and concatenating back to the file — for every Unicode class table in
-    which `\n` is white space and XID_Start ⊆ XID_Continue. -/
-theorem C29_tiles_partial_input (E : Env) (hcls : ClsOK E) (hnl : E.has cWhite 10 = true)
-    (hv : V E.text) (h16 : looksUtf16 E.text = false) (hbs : (92 : UInt8) ∉ E.text)
-    (hlast : E.text.getLast? = some 10) :
-    (lex E).status = .done ∧ Contig 0 (spansFrom 0 (lex E).toks) ∧ lastIn 0 (lex E).toks = E.n ∧
-    concatTexts E.text (lex E).toks = E.text := by
-  have hd := lex_done_of_no_backslash E hcls hv h16 hbs
-  exact ⟨hd, C29_tiles_partial E hcls hd (final_bad_of_trailing_newline E hcls hnl hlast hd)⟩
-
-/-- the same for any completed run (backslashes allowed) of a file ending in a newline -/
-theorem tiles_of_trailing_newline (E : Env) (hcls : ClsOK E) (hnl : E.has cWhite 10 = true)
-    (hlast : E.text.getLast? = some 10) (hd : (lex E).status = .done) :
-    concatTexts E.text (lex E).toks = E.text :=
-  (C29_tiles_partial E hcls hd (final_bad_of_trailing_newline E hcls hnl hlast hd)).2.2
-
-/-- non-vacuity of `C29_tiles_partial_input`: `message M {}\n` satisfies every hypothesis -/
+/-- non-vacuity of `C29_tiles_input`: `message M {}\n` satisfies every hypothesis -/
 example : concatTexts [109, 101, 115, 115, 97, 103, 101, 32, 77, 32, 123, 125, 10]
     (lex (envA [109, 101, 115, 115, 97, 103, 101, 32, 77, 32, 123, 125, 10])).toks
     = [109, 101, 115, 115, 97, 103, 101, 32, 77, 32, 123, 125, 10] :=
-  (C29_tiles_partial_input (envA [109, 101, 115, 115, 97, 103, 101, 32, 77, 32, 123, 125, 10])
-    (clsOK_ascii _) (by decide)
-    (utf8Scan_valid 14 _ 0 0 none (by decide) (by decide +kernel)) (by decide) (by decide) (by decide)).2.2.2
+  (C29_tiles_input (envA [109, 101, 115, 115, 97, 103, 101, 32, 77, 32, 123, 125, 10])
+    (clsOK_ascii _)
+    (Or.inr ⟨by decide, utf8Scan_valid 14 _ 0 0 none (by decide) (by decide +kernel)⟩)).2.2
 
-/-- non-vacuity: a small proto file satisfies the hypotheses of the partial theorems -/
-example : (lex (envA [109, 101, 115, 115, 97, 103, 101, 32, 77, 32, 123, 125, 10])).status = .done ∧
-    (lex (envA [109, 101, 115, 115, 97, 103, 101, 32, 77, 32, 123, 125, 10])).final.bad ≤ 0 := by
+/-! ### fixed defects (documentation) -/
+
+/-- before cb845bb5 a file consisting of one unrecognised byte (a backquote) got NO token and no
+    diagnostic; now it gets one `Unrecognized` token and an "unrecognized token" error -/
+theorem witness_dropped_tailPrefix :
+    ((lexPrefix (envA [96])).status = .done ∧ (lexPrefix (envA [96])).toks = [] ∧
+      (lexPrefix (envA [96])).diags = []) ∧
+    ((lex (envA [96])).toks = [{ end_ := 1, kind := kUnrecognized, kw := 0 }] ∧
+      (lex (envA [96])).diags = [⟨"unrec", lvError, [(0, 1)]⟩]) := by
+  decide +kernel
+
+/-- `"\` (which used to panic, see `C28.strContentPrefix_panics`) is one unterminated String token -/
+theorem witness_escape :
+    (lex (envA [34, 92])).status = .done ∧
+    (lex (envA [34, 92])).toks = [{ end_ := 2, kind := kString, kw := 0 }] := by
   decide +kernel
 
 /-! ## brackets -/
@@ -266,16 +250,17 @@ theorem brackets_matched_or_reported (n : Nat) (s : LS) :
 
 /-- the same on a whole completed run of the lexer: every bracket token the main loop pushed is
     fused, or an `unmatched delimiter` error among the lexer's diagnostics annotates its span -/
-theorem lex_brackets_matched_or_reported (E : Env) (hcls : ClsOK E) (hd : (lex E).status = .done) :
+theorem lex_brackets_matched_or_reported (E : Env) (hcls : ClsOK E) (hp : (prelude E {}).2 = true) :
     ∀ t ∈ (lex E).final.braces,
       (∃ p ∈ (fuseBraces E.n (lex E).final).2, p.1 = t.id ∨ p.2 = t.id) ∨
       (∃ d ∈ (lex E).diags, d.cls = "unm" ∧ d.level = lvError ∧ spanOf t ∈ d.spans) := by
-  rcases lex_trichotomy E hcls with ⟨_, ha⟩ | ⟨_, _, _, _, hi⟩ | ⟨s0, s1, hp, hm, _⟩
-  · rw [ha] at hd; cases hd
-  · rw [hi] at hd; cases hd
-  · have hfin : (lex E).final = s1 ∧ (lex E).diags = (fuseBraces E.n s1).1.diags.reverse := by
-      simp only [lex, hp, hm] at hd ⊢
-      cases hfb : fuseBraces E.n s1 with
+  rcases lex_cases E hcls with ⟨hf, _, _⟩ | ⟨s0, s1, hp', hm, _⟩
+  · rw [hf] at hp; cases hp
+  · have hd := lex_done_of_prelude E hcls s0 hp'
+    have hfin : (lex E).final = flush E.n s1 ∧
+        (lex E).diags = (fuseBraces E.n (flush E.n s1)).1.diags.reverse := by
+      simp only [lex, lexCore, hp', hm, if_true] at hd ⊢
+      cases hfb : fuseBraces E.n (flush E.n s1) with
       | mk s2 bp =>
         rw [hfb] at hd
         simp only at hd ⊢
@@ -292,7 +277,7 @@ theorem lex_brackets_matched_or_reported (E : Env) (hcls : ClsOK E) (hd : (lex E
             · exact ⟨rfl, rfl⟩
     rw [hfin.1, hfin.2]
     intro t ht
-    rcases brackets_matched_or_reported E.n s1 t ht with h | ⟨d, hdm, hrest⟩
+    rcases brackets_matched_or_reported E.n (flush E.n s1) t ht with h | ⟨d, hdm, hrest⟩
     · exact Or.inl h
     · exact Or.inr ⟨d, by simpa using hdm, hrest⟩
 
@@ -311,15 +296,15 @@ end PCV.Props.C29
 #print axioms PCV.Props.C29.stream_tiles
 #print axioms PCV.Props.C29.stream_contiguous
 #print axioms PCV.Props.C29.accounting_covers
+#print axioms PCV.Props.C29.nothing_pending
+#print axioms PCV.Props.C29.C29_tiles
+#print axioms PCV.Props.C29.C29_tiles_input
 #print axioms PCV.Props.C29.tiles_iff
 #print axioms PCV.Props.C29.C29_tiles_refuted
-#print axioms PCV.Props.C29.C29_tiles_partial
-#print axioms PCV.Props.C29.C29_tiles_partial_input
-#print axioms PCV.Props.C29.tiles_of_trailing_newline
-#print axioms PCV.Props.C29.witness_dropped_tail
-#print axioms PCV.Props.C29.witness_escape_ice
 #print axioms PCV.Props.C29.witness_not_utf8
 #print axioms PCV.Props.C29.witness_utf16_heuristic
+#print axioms PCV.Props.C29.witness_dropped_tailPrefix
+#print axioms PCV.Props.C29.witness_escape
 #print axioms PCV.Props.C29.brackets_matched_or_reported
 #print axioms PCV.Props.C29.lex_brackets_matched_or_reported
 #print axioms PCV.Props.C29.fused_pairs_match
